@@ -186,11 +186,12 @@ def check_syntax_error(acc, rnd, runner):
 STREAM_EXPRS = [
     ("doc.a + 1", "doc"), ("doc.a > 1", "doc"), ("doc.name + '!'", "doc"), ("doc.items.map(x, x * 2)", "doc"), ("doc.items.size() > 1", "doc"), ("has(doc.a)", "doc"),
     ("doc.a == doc.b", "doc"), ("doc", "doc"), ("doc.a / doc.b", "doc"), ("[doc.a, doc.b]", "doc"), ("doc.items.exists(x, x > 2)", "doc"), ("doc.flag", "doc"), ("!doc.flag", "doc"),
+    (".mix", None), ("doc.mix", "doc"),
     ("jq.a + 1", None), ("jq.a > 1", None), (".a > 1", None), (".a", None), (".name", None), ("jq", None), (".flag", None), (".a + .b", "pkg"), (".a > 1", "pkg"),
 ]
 
 
-PROJECTIONS = {".a": "a", ".name": "name", ".flag": "flag", "doc.flag": "flag", "doc": None, "jq": None}
+PROJECTIONS = {".mix": "mix", "doc.mix": "mix", ".a": "a", ".name": "name", ".flag": "flag", "doc.flag": "flag", "doc": None, "jq": None}
 
 
 def strict_same(a, b):
@@ -221,6 +222,9 @@ def rand_json_doc(rnd):
             d["name"] = rnd.choice(["x", "", "é\U0001f431", "a b", "l1\u2028l2", "p1\u2029p2", "n\u0085l", "a\u001cb", "tab\there", "q\"uote\\"])
         if rnd.random() < 0.6:
             d["items"] = [rnd.randint(0, 4) for _ in range(rnd.randint(0, 4))]
+        if rnd.random() < 0.5:
+            # members of several JSON kinds in one array / object, the boolean not in first place, also one level down
+            d["mix"] = rnd.choice([[0, True], ["x", False, None], [1, [True, 2]], [2.0, {"k": False}], [None, True, 1], [[], True], {"n": 1, "t": True, "l": [0, False]}, [1, 1.0, True, "1"]])
         if rnd.random() < 0.6:
             d["flag"] = rnd.choice([True, False, True, False, 1, "yes"])
         return json.dumps(d, ensure_ascii=rnd.random() < 0.4)
@@ -331,6 +335,42 @@ def first_line_diff(a, b):
     return min(len(la), len(lb)) + 1
 
 
+# results that mix JSON kinds (a boolean after a number or a string, one level down, as a map value): expression -> the document printed
+MIXED_RESULTS = [
+    ("[1, 2 > 1, 'x', 1 > 2]", [1, True, "x", False]),
+    ("{'a': [0, true]}", {"a": [0, True]}),
+    ("[null, true]", [None, True]),
+    ("[1.5, false, [true, 1]]", [1.5, False, [True, 1]]),
+    ("['s', {'k': true}]", ["s", {"k": True}]),
+    ("[[1, true], [false, 0]]", [[1, True], [False, 0]]),
+    ("[0u, true, 1u]", [0, True, 1]),
+    ("{'n': 1, 't': true, 'l': [0, false]}", {"n": 1, "t": True, "l": [0, False]}),
+    ("[1, 2, 3].map(x, x == 2 ? dyn(true) : dyn(x))", [1, True, 3]),
+    ("[[], true]", [[], True]),
+    ("['', false]", ["", False]),
+    ("[{}, true, {'a': false}]", [{}, True, {"a": False}]),
+]
+
+
+def check_mixed_results(acc, runner):
+    for src, want in MIXED_RESULTS:
+        argv = ["-n", src]
+        status, out, err = runner(argv)
+        acc.hook("main")
+        acc.hook("null-input")
+        acc.hook("mixed-kind-result")
+        acc.evaluations += 1
+        acc.nt([argv])
+        try:
+            got = json.loads(out)
+            ok = same_doc(got, want) and strict_same(got, want) and status == 0
+        except Exception:
+            got, ok = out[:60], False
+        acc.cell("-n", "mixed-kinds", "ok" if ok else "differ")
+        if not ok:
+            acc.violation(f"-n output mixed-kind-container status={status}", f"celpy -n {src!r}: stdout {out[:80]!r}, expected JSON of {want!r:.80}; stderr {err[:80]!r}", {"argv": argv, "stdin": ""})
+
+
 def run(ctx):
     acc = ctx.acc
     rnd = ctx.rnd
@@ -338,6 +378,7 @@ def run(ctx):
     import logging
 
     logging.disable(logging.CRITICAL)
+    check_mixed_results(acc, run_main)
     n = ctx.scale(2400, 120000)
     for j in range(n):
         if ctx.expired():
